@@ -67,19 +67,27 @@ def gearSets : P GearSets := do
 
 def key : UInt8 := 0x73
 
+/-- the encoded payload: `buffer.get(start..start + (content_size - 1))` with checked arithmetic
+(fixed) / `vec![0; content_size as usize - 1]` + `read_exact` (pinned) -/
+def payload (guarded : Bool) (b : Bytes) (contentSize : UInt32) (start : Nat) : M Bytes :=
+  if guarded then do
+    let n ← M.ofOption (if contentSize.toNat ≥ 1 then some (contentSize.toNat - 1) else none)  -- checked_sub(1)?
+    M.ofOption (Sl.get? b start (start + n))                                                   -- buffer.get(..)?
+  else do
+    let n ← Arith.subUsize contentSize.toNat 1                 -- `content_size as usize - 1`
+    M.alloc n                                                  -- `vec![0; n]`
+    M.ofOption (Sl.get? b start (start + n))                   -- `read_exact(..).ok()?`
+
+def headerAndPos : P (UInt32 × Nat) := do
+  let h ← header
+  let p ← P.getPos
+  pure (h, p)
+
 def fromExisting (guarded : Bool) (b : Bytes) : M GearSets := do
-  let (contentSize, start) ← (do let h ← header; let p ← P.getPos; pure (h, p) : P _).run b
-  let encoded ←
-    if guarded then do
-      let n ← M.ofOption (if contentSize.toNat ≥ 1 then some (contentSize.toNat - 1) else none)  -- checked_sub(1)?
-      M.ofOption (Sl.get? b start (start + n))                                                   -- buffer.get(..)?
-    else do
-      let n ← Arith.subUsize contentSize.toNat 1                 -- `content_size as usize - 1`
-      M.alloc n                                                  -- `vec![0; n]`
-      M.ofOption (Sl.get? b start (start + n))                   -- `read_exact(..).ok()?`
+  let hp ← headerAndPos.run b
+  let encoded ← payload guarded b hp.1 hp.2
   M.alloc encoded.length                                         -- `decoded`
-  let decoded := encoded.map (· ^^^ key)
-  gearSets.run decoded
+  gearSets.run (encoded.map (· ^^^ key))
 
 def digest (g : GearSets) : Bytes :=
   dNat g.current.toNat ++ dNat g.gearsets.length ++ g.gearsets.flatMap (fun s =>
